@@ -1,4 +1,4 @@
-import DoltVerif.Lemmas.ProllyMergeR2
+import DoltVerif.Lemmas.ProllyMergeSendR2
 import DoltVerif.Props.C13
 /-!
 C14 — Three-way tree merges follow key-wise merge semantics.
@@ -409,14 +409,7 @@ theorem range_patch_lookup {cmp : Bytes → Bytes → Ordering} (ol : OrdLaws cm
   rw [hto] at this ⊢
   exact this
 
-/-! ### the range-patch part: R3 proved, R2's interval tests proved, R1 and the rest of R2 as named hypotheses -/
-
-/-- the mapping of a key after applying a tiled patch stream to `l`: what the covering patch says,
-or `l`'s own mapping when no patch covers the key -/
-def patchedValue (cmp : Bytes → Bytes → Ordering) (ps : List Patch) (l : List KV) (k : Bytes) : Option KV :=
-  match ps.find? (fun p => p.covers cmp k) with
-  | some p => p.valAt cmp k
-  | none => lookupKV cmp k l
+/-! ### the range-patch part: R3 and R2 proved, R1 as the one named hypothesis (proved for single-leaf trees) -/
 
 /-- **R3 — apply_tiled_stream** (proved): `ApplyPatches` over any *tiled* stream of point and range
 patches (`Tiles`: every patch well-formed — a range patch carries strictly ascending pairs inside
@@ -426,15 +419,6 @@ theorem apply_tiled_stream {cmp : Bytes → Bytes → Ordering} (ol : OrdLaws cm
     (sl : Sorted cmp l) (ht : Tiles cmp ps) :
     Sorted cmp (applyPatches cmp l ps) ∧ ∀ k, lookupKV cmp k (applyPatches cmp l ps) = patchedValue cmp ps l k :=
   apply_tiled ol ps l sl ht
-
-/-- what R1 ∧ R2 have to deliver about the stream `SendPatches` emits: it tiles, applied to left it
-gives the key-wise merge at every key, and the collisions are the specification's, in key order -/
-structure StreamDenotesMerge (cmp : Bytes → Bytes → Ordering) (collide : Collide) (B L R : List KV)
-    (ps : List Patch) (cs : List Collision) : Prop where
-  tiles : Tiles cmp ps
-  value : ∀ k, patchedValue cmp ps L k = (mergeKey collide (lookupKV cmp k B) (lookupKV cmp k L) (lookupKV cmp k R)).1
-  coll : ∀ c, c ∈ cs ↔ ∃ k, (mergeKey collide (lookupKV cmp k B) (lookupKV cmp k L) (lookupKV cmp k R)).2 = some c
-  collAsc : cs.Pairwise (fun c1 c2 => cmp c1.left.key c2.left.key = .lt)
 
 /-- **patch_merge_refines_of_stream** (R3 as consumer): a stream that denotes the merge, applied by
 `ApplyPatches`, gives exactly the key-wise merge. -/
@@ -446,46 +430,6 @@ theorem patch_merge_refines_of_stream {cmp : Bytes → Bytes → Ordering} (ol :
     cs.Pairwise (fun c1 c2 => cmp c1.left.key c2.left.key = .lt) := by
   obtain ⟨s1, s2⟩ := apply_tiled_stream ol ps L sl h.tiles
   exact ⟨s1, fun k => by rw [s2 k, h.value k], h.coll, h.collAsc⟩
-
-/-- keys strictly before the interval of a patch -/
-def startsAfter (cmp : Bytes → Bytes → Ordering) (p : Patch) (k : Bytes) : Prop :=
-  if p.level = 0 then cmp k p.endKey = .lt else ∃ a, p.keyBelowStart = some a ∧ cmp k a ≠ .gt
-
-/-- where a generator stands: nothing produced yet, just produced a patch, or exhausted -/
-inductive GenPos where
-  | start
-  | at (p : Patch) (t : DiffType)
-  | done
-
-def GenPos.ofResult : Option (Patch × DiffType) → GenPos
-  | some (p, t) => .at p t
-  | none => .done
-
-/-- Content-level soundness of a `PatchGenerator` for the change `B → X`, as an invariant `Inv d pos`
-over (generator state, position) that is closed under `Next` and `split`:
-* the current patch is well formed, says what `X` maps the keys of its interval to, and — for a point
-  patch — is the genuine change of its key;
-* `Next` (from `start` or from a patch) produces a patch lying after the current one, and no key in
-  between is changed from `B` to `X` (no change is lost; when nothing follows, nothing after the
-  current patch is changed);
-* `split` of a range patch produces a patch that does not start before the split one, and no key from
-  the start of the split interval up to the new patch (or to the end of the map, when nothing follows —
-  "split … could even return EOF") is changed. -/
-structure GenSound (cmp : Bytes → Bytes → Ordering) (fuel : Nat) (B X : List KV)
-    (Inv : PG → GenPos → Prop) : Prop where
-  cur : ∀ d p t, Inv d (.at p t) → PatchOK cmp p ∧
-    (∀ k, p.covers cmp k = true → lookupKV cmp k X = p.valAt cmp k) ∧
-    (p.level = 0 → changeOf (lookupKV cmp p.endKey B) (lookupKV cmp p.endKey X) =
-      some ⟨t, p.endKey, pvalBytes p.from?, pvalBytes p.to?⟩)
-  next : ∀ d pos d' c', Inv d pos → pos ≠ .done → pgNext cmp fuel d = .ok (d', c') → Inv d' (GenPos.ofResult c') ∧
-    (∀ p t p' t', pos = .at p t → c' = some (p', t') → Patch.before cmp p p') ∧
-    (∀ k, (∀ p t, pos = .at p t → cmp p.endKey k = .lt) → (∀ p' t', c' = some (p', t') → startsAfter cmp p' k) →
-      changeOf (lookupKV cmp k B) (lookupKV cmp k X) = none)
-  split : ∀ d p t d' c', Inv d (.at p t) → p.level ≠ 0 → pgSplit cmp fuel d = .ok (d', c') →
-    Inv d' (GenPos.ofResult c') ∧
-    (∀ p' t', c' = some (p', t') → ∀ k, startsAfter cmp p k → startsAfter cmp p' k) ∧
-    (∀ k, ¬ startsAfter cmp p k → (∀ p' t', c' = some (p', t') → startsAfter cmp p' k) →
-      changeOf (lookupKV cmp k B) (lookupKV cmp k X) = none)
 
 /-- in a strictly ascending event list, a key strictly between an element and its successor (or beyond the
 last, or before the first) is the key of no element -/
@@ -511,7 +455,7 @@ single-leaf `base`, `x` the generator built by `PatchGeneratorFromRoots` has a s
 interface is satisfiable and R1 is settled wherever only point patches occur. -/
 theorem R1_leaf {cmp : Bytes → Bytes → Ordering} (ol : OrdLaws cmp) (fuel : Nat) (kb kx : List KV)
     (sb : Sorted cmp kb) (sx : Sorted cmp kx) (d : PG) (hd : pgFromRoots (.leaf kb) (.leaf kx) = .ok d) :
-    ∃ Inv, GenSound cmp fuel kb kx Inv ∧ Inv d .start := by
+    ∃ Inv, GenSound cmp (fun _ => none) fuel kb kx Inv ∧ Inv d .start := by
   have hmem := specDiffP_mem ol kb kx sb sx
   have hasc : AscE cmp (specDiffP cmp kb kx) := specDiffP_ascending ol kb kx sb sx
   let Inv : PG → GenPos → Prop := fun d pos =>
@@ -519,14 +463,21 @@ theorem R1_leaf {cmp : Bytes → Bytes → Ordering} (ol : OrdLaws cmp) (fuel : 
     | .start => LeafStr cmp d (specDiffP cmp kb kx)
     | .at p t => ∃ pre e rest, specDiffP cmp kb kx = pre ++ e :: rest ∧ (p, t) = patchOf e ∧ LeafStr cmp d rest
     | .done => True
-  refine ⟨Inv, ⟨?_, ?_, ?_⟩, pgFromRoots_leaf kb kx d hd⟩
+  refine ⟨Inv, ⟨?_, ?_, ?_, ?_⟩, pgFromRoots_leaf kb kx d hd⟩
+  · -- form
+    rintro d p t ⟨pre, e, rest, _, hpt, _⟩
+    have hp : p = pointPatch e := congrArg Prod.fst hpt
+    have hlev : p.level = 0 := by rw [hp]; rfl
+    refine ⟨fun _ => ?_, fun h => absurd hlev h, fun h => absurd hlev h, fun h => absurd hlev h⟩
+    rw [hp]; simp [pointPatch, patchOf, pvalBytes_map]
   · -- cur
-    rintro d p t ⟨pre, e, rest, hs, hpt, _⟩
+    rintro d p t ⟨pre, e, rest, hs, hpt, hstr0⟩
     have hp : p = pointPatch e := congrArg Prod.fst hpt
     have ht : t = e.type := congrArg Prod.snd hpt
     have hlev : p.level = 0 := by rw [hp]; rfl
     have he : DiffSpecP cmp kb kx e := (hmem e).mp (by rw [hs]; simp)
-    refine ⟨⟨fun h => absurd hlev h, fun h => absurd hlev h, fun h => absurd hlev h⟩, ?_, ?_⟩
+    refine ⟨⟨fun h => absurd hlev h, fun h => absurd hlev h, fun h => absurd hlev h⟩, ?_, ?_, ?_⟩
+    · rw [hlev]; exact getLevel_leaf hstr0
     · intro k hk
       have hk' : cmp k e.key = .eq := by
         have := (covers_iff_point hlev k).mp hk; rw [hp] at this; exact this
@@ -650,20 +601,42 @@ def R1_GeneratorSound (cmp : Bytes → Bytes → Ordering) : Prop :=
   ∀ (store : Addr → Option Tree) (fuel : Nat) (base x : Tree) (d : PG),
     base.WF store → x.WF store → base.KeysOK → x.KeysOK → Sorted cmp base.flatten → Sorted cmp x.flatten →
     pgFromRoots base x = .ok d →
-    ∃ Inv, GenSound cmp fuel base.flatten x.flatten Inv ∧ Inv d .start
+    ∃ Inv, GenSound cmp store fuel base.flatten x.flatten Inv ∧ Inv d .start
 
-/-- **R2 (named hypothesis)**: over two sound generators, `SendPatches` (all four level combinations,
-the same-address shortcut, split-first / split-both, `getNextAndSplitIfAtEnd`) emits a stream that
-denotes the key-wise merge.  Proved here: the interval tests of its range branches
-(`sendPatches_interval_tests`) and the whole loop for point-only streams (`sendPatches_leaf`); open:
-preservation of "the output so far is the merge below the frontier" through the range branches. -/
-def R2_SendPatchesSound (cmp : Bytes → Bytes → Ordering) (collide : Collide) : Prop :=
-  ∀ (fuel : Nat) (B L R : List KV) (ld rd : PG) (InvL InvR : PG → GenPos → Prop)
-    (ps : List Patch) (cs : List Collision),
-    Sorted cmp B → Sorted cmp L → Sorted cmp R →
-    GenSound cmp fuel B L InvL → GenSound cmp fuel B R InvR → InvL ld .start → InvR rd .start →
-    sendPatches cmp collide fuel ld rd = .ok (ps, cs) →
-    StreamDenotesMerge cmp collide B L R ps cs
+/-- **R2_SendPatchesSound** (proved): over two generators with `GenSound` invariants and a byte-exact
+key order, `SendPatches` (all four level combinations: the interval tests, the same-`To` shortcut,
+split-first / split-both, `getNextAndSplitIfAtEnd`, the final drain) emits a stream that denotes the
+key-wise merge: it is tiled, gives every key the merge's value, and hands the handler exactly the
+merge's collisions in ascending key order.  Loop invariant (`J` with its collision part `K`, in
+`Lemmas/ProllyMergeSendR2`): what has been sent is tiled and ends before right's current patch; at and
+after the start of left's current patch nothing sent changes left's mapping; every key below both
+current patches has the merge's value and its collision (if any) has been handed out; for a key in
+`[rightStart, leftStart)` the merge is right's mapping, in `[leftStart, rightStart)` left's, with no
+collision in either. -/
+theorem R2_SendPatchesSound {cmp : Bytes → Bytes → Ordering} (ol : OrdLaws cmp) (hexact : ∀ a b, cmp a b = .eq → a = b)
+    (collide : Collide) (store : Addr → Option Tree) (fuel : Nat) (B L R : List KV) (ld rd : PG)
+    (InvL InvR : PG → GenPos → Prop) (ps : List Patch) (cs : List Collision)
+    (sb : Sorted cmp B) (sl : Sorted cmp L) (sr : Sorted cmp R)
+    (gl : GenSound cmp store fuel B L InvL) (gr : GenSound cmp store fuel B R InvR)
+    (hil : InvL ld .start) (hir : InvR rd .start)
+    (h : sendPatches cmp collide fuel ld rd = .ok (ps, cs)) :
+    StreamDenotesMerge cmp collide B L R ps cs := by
+  obtain ⟨h1, h2, h3, h4⟩ :=
+    sendPatches_value ⟨ol, hexact, collide, store, fuel, B, L, R, sb, sl, sr, InvL, InvR, gl, gr⟩ ld rd hil hir ps cs h
+  exact ⟨h1, h2, h3, h4⟩
+
+/-- **R2_over_R1_leaf** (proved; shows the `GenSound` interface of R2 is inhabited and the two parts
+compose): feeding the invariants `R1_leaf` constructs into the general `R2_SendPatchesSound` gives
+`StreamDenotesMerge` for every `SendPatches` run over generators of sorted single-leaf trees. -/
+theorem R2_over_R1_leaf {cmp : Bytes → Bytes → Ordering} (ol : OrdLaws cmp) (hexact : ∀ a b, cmp a b = .eq → a = b)
+    (collide : Collide) (fuel : Nat) (kb kl kr : List KV)
+    (sb : Sorted cmp kb) (sl : Sorted cmp kl) (sr : Sorted cmp kr) (ld rd : PG)
+    (hld : pgFromRoots (.leaf kb) (.leaf kl) = .ok ld) (hrd : pgFromRoots (.leaf kb) (.leaf kr) = .ok rd)
+    (ps : List Patch) (cs : List Collision) (h : sendPatches cmp collide fuel ld rd = .ok (ps, cs)) :
+    StreamDenotesMerge cmp collide kb kl kr ps cs := by
+  obtain ⟨InvL, gl, il⟩ := R1_leaf ol fuel kb kl sb sl ld hld
+  obtain ⟨InvR, gr, ir⟩ := R1_leaf ol fuel kb kr sb sr rd hrd
+  exact R2_SendPatchesSound ol hexact collide _ fuel kb kl kr ld rd InvL InvR ps cs sb sl sr gl gr il ir h
 
 /-- **sendPatches_interval_tests** (the proved part of R2): the comparisons the range branches of
 `SendPatches` make decide interval overlap correctly — `left.EndKey ≤ right.KeyBelowStart` (nil as
@@ -683,11 +656,11 @@ theorem sendPatches_interval_tests {cmp : Bytes → Bytes → Ordering} (ol : Or
    fun x r hr => point_range_decision ol x hr,
    fun store a b ta tb ha hb h => same_address_same_pairs ha hb h⟩
 
-/-- **patch_merge_refines_of_R1_R2**: `patch_merge_refines` (content = key-wise merge at every key,
-collisions = the specification's in key order) for ALL well-formed trees follows from R1 ∧ R2 — R3
-(`apply_tiled_stream`) is proved. -/
-theorem patch_merge_refines_of_R1_R2 {cmp : Bytes → Bytes → Ordering} (ol : OrdLaws cmp) (collide : Collide)
-    (r1 : R1_GeneratorSound cmp) (r2 : R2_SendPatchesSound cmp collide)
+/-- **patch_merge_refines_of_R1**: `patch_merge_refines` (content = key-wise merge at every key,
+collisions = the specification's in key order) for ALL well-formed trees under a byte-exact key order
+follows from R1 alone — R2 (`R2_SendPatchesSound`) and R3 (`apply_tiled_stream`) are proved. -/
+theorem patch_merge_refines_of_R1 {cmp : Bytes → Bytes → Ordering} (ol : OrdLaws cmp) (hexact : ∀ a b, cmp a b = .eq → a = b)
+    (collide : Collide) (r1 : R1_GeneratorSound cmp)
     (store : Addr → Option Tree) (base left right : Tree)
     (hb : base.WF store) (hl : left.WF store) (hr : right.WF store)
     (kb : base.KeysOK) (kl : left.KeysOK) (kr : right.KeysOK)
@@ -717,8 +690,8 @@ theorem patch_merge_refines_of_R1_R2 {cmp : Bytes → Bytes → Ordering} (ol : 
         obtain ⟨rfl, rfl, rfl⟩ := h
         obtain ⟨InvL, gl, il⟩ := r1 store (mergeFuel base left right) base left ld hb hl kb kl sb sl h1
         obtain ⟨InvR, gr, ir⟩ := r1 store (mergeFuel base left right) base right rd hb hr kb kr sb sr h2
-        have sd := r2 (mergeFuel base left right) base.flatten left.flatten right.flatten ld rd InvL InvR ps' cs'
-          sb sl sr gl gr il ir h3
+        have sd := R2_SendPatchesSound ol hexact collide store (mergeFuel base left right) base.flatten left.flatten
+          right.flatten ld rd InvL InvR ps' cs' sb sl sr gl gr il ir h3
         exact patch_merge_refines_of_stream ol collide _ _ _ sl ps' cs' sd
 
 /-! ### statements that are compared by the harness, not proved -/
